@@ -303,6 +303,14 @@ func (e *Env) Run(idx int, c *Case) []Mismatch {
 		}
 		return nil
 	})
+	// a sub-query over `kids` is a query of the plain child store: what it returns is also C15's statement
+	if strings.Contains(text, "kids") {
+		for i := range out {
+			if !strings.Contains(out[i].Owners, "C15") {
+				out[i].Owners += ",C15"
+			}
+		}
+	}
 	if onlyObjSyms(c.Syms) && !Total {
 		judge("objectz", guard(func() ([]string, int64, error) {
 			items, n, err := e.Obj.QueryEntities(text)
